@@ -379,8 +379,39 @@ pub fn check_dups(c: &DupCase) -> CaseResult {
     Ok(CaseOk::new(true).label_if(c.dups.iter().any(|d| d.1), "same_object_twice").label_if(c.dups.iter().any(|d| !d.1), "separate_copy"))
 }
 
+/// The trackers' own use of the function (VisualSORT with an own-area threshold): the share stored
+/// with the newest observation of every track is the uncovered fraction of that detection among the
+/// detections of *its own call and scene* - with and without features, one or several scenes per
+/// batch. Other parts of the tracker contract are C01/C13's business and are ignored here.
+pub fn check_tracker_shares(h: &crate::gen::scenes::History) -> CaseResult {
+    use crate::props::trkmon::{run_monitored, Flags};
+    let flags = Flags { c01: false, c03: false, c13: true, margins: false, group_batches: true };
+    match run_monitored(h, flags) {
+        Ok(st) => Ok(CaseOk::new(st.own_area_checks_occluded > 0).label(h.cfg.kind.name()).label_if(st.own_area_checks_occluded > 0, "partly_covered_detection_stored")),
+        Err(f) if f.signature.starts_with("c13-own-area") => Err(Fail::new(format!("tracker-{}", &f.signature[4..]), f.msg)),
+        Err(f) => {
+            if std::env::var("SV_DBG").is_ok() {
+                return Err(f);
+            }
+            Ok(CaseOk::trivial().label("other_contract_failure_ignored"))
+        }
+    }
+}
+
+fn shares_history(kind: crate::trk::Kind) -> impl Strategy<Value = crate::gen::scenes::History> {
+    (crate::gen::scenes::history(kind, false, 30), 0u8..3, 0.05f32..0.6).prop_map(|(mut h, mode, thr)| {
+        // an own-area threshold is always configured: for use, for collection, or for both
+        match mode {
+            0 => { h.cfg.vis.own_use = thr; h.cfg.vis.own_collect = 0.0; }
+            1 => { h.cfg.vis.own_use = 0.0; h.cfg.vis.own_collect = thr; }
+            _ => { h.cfg.vis.own_use = thr; h.cfg.vis.own_collect = thr; }
+        }
+        h
+    })
+}
+
 pub fn run(env: &Env, rep: &Report) {
-    rep.set_rule("sets of 1..8 boxes: integer axis-aligned (exact grid count), random axis-aligned and rotated (inclusion-exclusion over convex intersections), near-degenerate sets (identical boxes, shared / partially overlapping collinear edges, right-angle rotations, hair-angle perturbations). Non-trivial: >=3 boxes with a region covered by >=3 of them, or a degenerate set; distinct = distinct serialized case");
+    rep.set_rule("(sets) sets of 1..8 boxes: integer axis-aligned (exact grid count), random axis-aligned and rotated (inclusion-exclusion over convex intersections), near-degenerate sets (identical boxes, shared / partially overlapping collinear edges, right-angle rotations, hair-angle perturbations). Non-trivial: >=3 boxes with a region covered by >=3 of them, or a degenerate set; distinct = distinct serialized case");
     rep.assume("reference: oracle/geom.rs inclusion-exclusion (f64) and exact unit-cell counting; tolerance 1e-4 + 2 EPS/area");
     rep.assume("each case is evaluated in a child process; no answer within 10 s (typical case: < 1 ms) counts as non-termination of the computation");
     let pool = IsoPool::new(&env.prop, "sets", std::time::Duration::from_secs(10));
@@ -400,6 +431,10 @@ pub fn run(env: &Env, rep: &Report) {
         pool2.eval(c).map_err(|f| if f.signature.starts_with("hang@") || f.signature.starts_with("panic@thread:") { qualify(f, true) } else { f })
     };
     par_generated(rep, "dups", dup_case, env.tier.pick(12_000, 300_000), workers(), check2);
+    let pool3 = IsoPool::new(&env.prop, "tracker-shares", std::time::Duration::from_secs(120));
+    for kind in [crate::trk::Kind::VisualSort, crate::trk::Kind::BatchVisualSort] {
+        par_generated(rep, "tracker-shares", move || shares_history(kind), env.tier.pick(3_000, 40_000), workers(), crate::props::c01::iso_check(&pool3, rep));
+    }
     rep.set_extra("child_timeouts", serde_json::json!(pool.timeouts.load(std::sync::atomic::Ordering::Relaxed)));
     rep.set_extra("child_crashes", serde_json::json!(pool.crashes.load(std::sync::atomic::Ordering::Relaxed)));
 }
@@ -413,6 +448,9 @@ pub fn replay_isolated(env_prop: &str, sub: &str, case: Value) -> Option<CaseRes
         };
         let pool = IsoPool::new(env_prop, "dups", std::time::Duration::from_secs(10));
         return Some(pool.eval(&c).map_err(|f| if f.signature.starts_with("hang@") || f.signature.starts_with("panic@thread:") { qualify(f, true) } else { f }));
+    }
+    if sub == "tracker-shares" {
+        return Some(replay_case(case, check_tracker_shares, sub));
     }
     if sub != "sets" {
         return None;
@@ -437,6 +475,7 @@ pub fn replay(sub: &str, case: Value) -> Option<CaseResult> {
     match sub {
         "sets" => Some(replay_case(case, check_set, sub)),
         "dups" => Some(replay_case(case, check_dups, sub)),
+        "tracker-shares" => Some(replay_case(case, check_tracker_shares, sub)),
         _ => None,
     }
 }
